@@ -9,7 +9,9 @@ lengths, capacities) and what the caller gets back (status, values, bytes, retur
 import os
 
 PRIMS = {"uint8": ("uint8_t", "u8", 1), "uint16": ("uint16_t", "u16", 2), "uint32": ("uint32_t", "u32", 4), "uint64": ("uint64_t", "u64", 8),
-         "int8": ("int8_t", "i8", 1), "int16": ("int16_t", "i16", 2), "int32": ("int32_t", "i32", 4), "int64": ("int64_t", "i64", 8)}
+         "int8": ("int8_t", "i8", 1), "int16": ("int16_t", "i16", 2), "int32": ("int32_t", "i32", 4), "int64": ("int64_t", "i64", 8),
+         "float32": ("float", "f32", 4), "float64": ("double", "f64", 8)}
+FLOATS = ("float32", "float64")
 STRUCTS = {"SD": 8, "BD": 24, "SX": 16, "SY": 17}
 IDL_PRELUDE = """struct SD { uint32 a; uint16 b; uint8 c; uint8 d; };
 struct BD { uint64 x; uint64 y; uint32 z; uint32 w; };
@@ -92,9 +94,9 @@ def c_side(methods, opt=None):
             kd, ct, es = kind(t, sh), ctype(t), esize(t)
             if kd == "prim":
                 if d == "in":
-                    sig.append("%s %s_val" % (ct, pn)); log.append("  L_u64(%d, (uint64_t)%s_val);" % (i, pn))
+                    sig.append("%s %s_val" % (ct, pn)); log.append(("  L_f64(%d, (double)%s_val);" if t in FLOATS else "  L_u64(%d, (uint64_t)%s_val);") % (i, pn))
                 else:
-                    sig.append("%s *%s_ptr" % (ct, pn)); post.append("  *%s_ptr = (%s)d_prim(%d, %d, v, 1);" % (pn, ct, k, i))
+                    sig.append("%s *%s_ptr" % (ct, pn)); post.append("  *%s_ptr = (%s)%s(%d, %d, v, 1);" % (pn, ct, "d_f64" if t in FLOATS else "d_prim", k, i))
             elif kd == "struct":
                 if d == "in":
                     sig.append("const %s *%s_ptr" % (ct, pn)); log.append("  L_hex(%d, %s_ptr, sizeof(%s));" % (i, pn, ct))
@@ -122,9 +124,9 @@ def c_side(methods, opt=None):
             kd, ct, es = kind(t, sh), ctype(t), esize(t)
             if kd == "prim":
                 if d == "in":
-                    args.append("(%s)d_prim(%d, %d, v, 0)" % (ct, k, i))
+                    args.append("(%s)%s(%d, %d, v, 0)" % (ct, "d_f64" if t in FLOATS else "d_prim", k, i))
                 else:
-                    L.append("  %s %s = 0;" % (ct, pn)); args.append("&" + pn); outs.append("  L_u64(%d, (uint64_t)%s);" % (i, pn))
+                    L.append("  %s %s = 0;" % (ct, pn)); args.append("&" + pn); outs.append(("  L_f64(%d, (double)%s);" if t in FLOATS else "  L_u64(%d, (uint64_t)%s);") % (i, pn))
             elif kd == "struct":
                 L.append("  %s %s; memset(&%s, 0, sizeof %s);" % (ct, pn, pn, pn))
                 args.append("&" + pn)
@@ -175,9 +177,9 @@ def cpp_side(methods, opt=None):
             kd, ct, es = kind(t, sh), ctype(t), esize(t)
             if kd == "prim":
                 if d == "in":
-                    sig.append("%s %s_val" % (ct, pn)); log.append("    L_u64(%d, (uint64_t)%s_val);" % (i, pn))
+                    sig.append("%s %s_val" % (ct, pn)); log.append(("    L_f64(%d, (double)%s_val);" if t in FLOATS else "    L_u64(%d, (uint64_t)%s_val);") % (i, pn))
                 else:
-                    sig.append("%s *%s_ptr" % (ct, pn)); post.append("    *%s_ptr = (%s)d_prim(%d, %d, v, 1);" % (pn, ct, k, i))
+                    sig.append("%s *%s_ptr" % (ct, pn)); post.append("    *%s_ptr = (%s)%s(%d, %d, v, 1);" % (pn, ct, "d_f64" if t in FLOATS else "d_prim", k, i))
             elif kd == "struct":
                 if d == "in":
                     sig.append("const %s &%s_ref" % (ct, pn)); log.append("    L_hex(%d, &%s_ref, sizeof(%s));" % (i, pn, ct))
@@ -204,9 +206,9 @@ def cpp_side(methods, opt=None):
             kd, ct, es = kind(t, sh), ctype(t), esize(t)
             if kd == "prim":
                 if d == "in":
-                    args.append("(%s)d_prim(%d, %d, v, 0)" % (ct, k, i))
+                    args.append("(%s)%s(%d, %d, v, 0)" % (ct, "d_f64" if t in FLOATS else "d_prim", k, i))
                 else:
-                    L.append("  %s %s = 0;" % (ct, pn)); args.append("&" + pn); outs.append("  L_u64(%d, (uint64_t)%s);" % (i, pn))
+                    L.append("  %s %s = 0;" % (ct, pn)); args.append("&" + pn); outs.append(("  L_f64(%d, (double)%s);" if t in FLOATS else "  L_u64(%d, (uint64_t)%s);") % (i, pn))
             elif kd == "struct":
                 L.append("  %s %s; memset(&%s, 0, sizeof %s);" % (ct, pn, pn, pn))
                 args.append(pn)
@@ -272,6 +274,8 @@ extern "C" {
     fn L_hex(idx: i32, p: *const c_void, n: usize);
     fn L_u64(idx: i32, x: u64);
     fn L_len(idx: i32, n: usize);
+    fn d_f64(k: i32, i: i32, v: i32, salt: i32) -> f64;
+    fn L_f64(idx: i32, x: f64);
 }
 struct RustImpl;
 impl Drop for RustImpl { fn drop(&mut self) { unsafe { impl_died() } } }
@@ -302,9 +306,9 @@ def rust_side(methods, tests, out, nval, chain=False, opt=None):
                 kd, rt, es = kind(t, sh), rty(t), esize(t)
                 if kd == "prim":
                     if d == "in":
-                        sig.append("%s: %s" % (pn, rt)); log.append("        L_u64(%d, %s as u64);" % (i, pn))
+                        sig.append("%s: %s" % (pn, rt)); log.append(("        L_f64(%d, %s as f64);" if t in FLOATS else "        L_u64(%d, %s as u64);") % (i, pn))
                     else:
-                        retty.append(rt); rets.append("d_prim(%d, %d, v, 1) as %s" % (k, i, rt))
+                        retty.append(rt); rets.append("%s(%d, %d, v, 1) as %s" % ("d_f64" if t in FLOATS else "d_prim", k, i, rt))
                 elif kd == "struct":
                     if d == "in":
                         sig.append("%s: &%s" % (pn, rt)); log.append("        L_hex(%d, %s as *const %s as *const c_void, std::mem::size_of::<%s>());" % (i, pn, rt, rt))
@@ -334,9 +338,9 @@ def rust_side(methods, tests, out, nval, chain=False, opt=None):
             kd, rt, es = kind(t, sh), rty(t), esize(t)
             if kd == "prim":
                 if d == "in":
-                    args.append("d_prim(%d, %d, v, 0) as %s" % (k, i, rt))
+                    args.append("%s(%d, %d, v, 0) as %s" % ("d_f64" if t in FLOATS else "d_prim", k, i, rt))
                 else:
-                    pats.append(pn); outs.append("            L_u64(%d, %s as u64);" % (i, pn))
+                    pats.append(pn); outs.append(("            L_f64(%d, %s as f64);" if t in FLOATS else "            L_u64(%d, %s as u64);") % (i, pn))
             elif kd == "struct":
                 if d == "in":
                     L.append("    let mut %s: %s = std::mem::zeroed(); d_fill(&mut %s as *mut %s as *mut c_void, std::mem::size_of::<%s>(), %d, %d, v, 0);" % (pn, rt, pn, rt, rt, k, i))
